@@ -210,7 +210,11 @@ func vc07Bits(m uint32, n int) []int {
 // search
 
 type vc07Bounds struct {
-	Budget   int // fault events per history
+	// FirstFault restricts the FIRST fault of a history to one class "kind@node" (node = destination of the message,
+	// or the node whose eviction runs); "" = any. The classes partition the histories with at least one fault, so a
+	// pair can be searched as six independent jobs (each de-duplicates within itself).
+	FirstFault string
+	Budget     int // fault events per history
 	PoolTick int // tick(n) is enabled while fewer than this many original messages are in flight (bounds delay)
 	MaxDepth int
 	Rmax     int
@@ -244,7 +248,11 @@ func (w *vc07World) enabled(b vc07Bounds) []vc07Event {
 		}
 		evs = append(evs, vc07Event{K: "deliver", M: m.ID})
 		if w.faults < b.Budget {
-			evs = append(evs, vc07Event{K: "drop", M: m.ID}, vc07Event{K: "dup", M: m.ID})
+			for _, k := range []string{"drop", "dup"} {
+				if w.faults > 0 || b.FirstFault == "" || b.FirstFault == fmt.Sprintf("%s@%d", k, m.To) {
+					evs = append(evs, vc07Event{K: k, M: m.ID})
+				}
+			}
 		}
 	}
 	for n := 0; n < 2; n++ {
@@ -267,7 +275,7 @@ func (w *vc07World) enabled(b vc07Bounds) []vc07Event {
 		if live || any[n] {
 			if originals == 0 {
 				evs = append(evs, vc07Event{K: "expire", N: n})
-			} else if w.faults < b.Budget {
+			} else if w.faults < b.Budget && (w.faults > 0 || b.FirstFault == "" || b.FirstFault == fmt.Sprintf("lexpire@%d", n)) {
 				evs = append(evs, vc07Event{K: "lexpire", N: n})
 			}
 		}
@@ -293,6 +301,8 @@ type vc07Searcher struct {
 	maxDep  int
 	byFault map[int]int64
 }
+
+func (s *vc07Searcher) primaryJob() bool { return s.b.FirstFault == "" || s.b.FirstFault == "drop@0" }
 
 func vc07Hist(h []vc07Event, e vc07Event) []vc07Event {
 	return append(append(make([]vc07Event, 0, len(h)+1), h...), e)
@@ -389,7 +399,11 @@ func (s *vc07Searcher) searchPair(pair vc07Pair) {
 		}
 		node := vc07QNode{hist: hist, enabled: w.enabled(s.b), key: key, conv: len(w.pool) == 0 && w.converged()}
 		w.light = false
-		// liveness: fair suffix from this (new) state, on this live instance
+		// liveness: fair suffix from this (new) state, on this live instance. The fault-free states are common to the six
+		// jobs of a pair: their suffix (and the conformance pass) is run by the first job only.
+		if w.faults == 0 && !s.primaryJob() {
+			return node, true
+		}
 		before := w.steps
 		rounds, reason := w.fairSuffix(s.b.Rmax, func() bool {
 			if clause, detail := w.safety(); clause != "" {
@@ -446,7 +460,7 @@ func (s *vc07Searcher) searchPair(pair vc07Pair) {
 				}
 				if fresh {
 					next = append(next, node)
-				} else if depth <= 3 && len(dupHist[node.key]) < 2 {
+				} else if depth <= 3 && len(dupHist[node.key]) < 2 && s.primaryJob() {
 					dupHist[node.key] = append(dupHist[node.key], nh)
 				}
 			}
@@ -527,19 +541,26 @@ func TestVerifC07Small(t *testing.T) {
 
 	b := vc07Bounds{Budget: 1, PoolTick: 2, MaxDepth: 80, Rmax: 16}
 	maxUnion := 4
-	// fault budget by size of the union
-	budgetFor := func(union int) int { return 1 }
-	if r.Thorough() {
-		maxUnion = 6
-		budgetFor = func(union int) int {
-			switch {
-			case union <= 2:
-				return 2
-			case union <= 5:
+	// fault budget per pair. "two-way": both sides hold transactions the other lacks (two crossing reconciliations: the
+	// state graph with one fault has ~45 000 transitions per pair against ~5 000 for a one-way pair).
+	budgetFor := func(p vc07Pair) int {
+		union, twoWay := len(p.Shape), p.A&^p.B != 0 && p.B&^p.A != 0
+		if !r.Thorough() {
+			if union <= 3 || !twoWay {
 				return 1
 			}
 			return 0
 		}
+		switch {
+		case union <= 2:
+			return 2
+		case union <= 4, union == 5 && !twoWay:
+			return 1
+		}
+		return 0
+	}
+	if r.Thorough() {
+		maxUnion = 6
 	}
 	if v := os.Getenv("VERIF_C07_UNION"); v != "" {
 		fmt.Sscan(v, &maxUnion)
@@ -547,7 +568,7 @@ func TestVerifC07Small(t *testing.T) {
 	if v := os.Getenv("VERIF_C07_BUDGET"); v != "" {
 		fixed := 0
 		fmt.Sscan(v, &fixed)
-		budgetFor = func(int) int { return fixed }
+		budgetFor = func(vc07Pair) int { return fixed }
 	}
 	if v := os.Getenv("VERIF_C07_POOLTICK"); v != "" {
 		fmt.Sscan(v, &b.PoolTick)
@@ -571,8 +592,9 @@ func TestVerifC07Small(t *testing.T) {
 		"(every shape whose prevs are antichains, up to isomorphism and swapping A/B), each with the differing transactions present before the connection " +
 		"(empty gossip queues) and, up to the union size given under bounds, a second time with them created after it (queued for gossip). From each pair a breadth-first search over event histories of the two REAL protocol " +
 		"instances to quiescence: deliver(m) for any in-flight m, tick(node), expire(node) and, charged to a budget, drop(m), dup(m) (deliver and leave a copy in flight " +
-		"for arbitrarily late re-delivery), stale(m) (re-inject a response that was already answered). States are merged by canonical form (App. B.3). " +
-		"A pair is non-trivial when A != B.")
+		"for arbitrarily late re-delivery; stale(m) is the delivery of such a copy at any later moment), lexpire(node) (expiry while messages are in flight). " +
+		"A pair with a fault budget is searched as six jobs, one per class (kind, node) of the FIRST fault; states are merged by canonical form (App. B.3) within a job, " +
+		"so the state and transition counts are sums over jobs. A case is (pair, first-fault class); non-trivial when A != B.")
 	queuedUpTo := 3
 	if r.Thorough() {
 		queuedUpTo = maxUnion
@@ -592,33 +614,49 @@ func TestVerifC07Small(t *testing.T) {
 		}
 		return
 	}
-	// deal the pairs to the shards by estimated cost (longest first to the least loaded shard), deterministically
-	assign := make([]int, len(pairs))
-	{
-		_, nsh := r.Shard()
-		order := make([]int, len(pairs))
-		cost := make([]int, len(pairs))
-		for i, p := range pairs {
-			order[i] = i
-			switch {
-			case p.A == p.B:
-				cost[i] = 1
-			case p.A&^p.B != 0 && p.B&^p.A != 0:
-				cost[i] = 110
-			default:
-				cost[i] = 50
+	// jobs: a pair with a fault budget is split by the class of the first fault; jobs are dealt to the shards by
+	// estimated cost (longest first to the least loaded shard), deterministically
+	type job struct {
+		pair   int
+		first  string
+		budget int
+		cost   int
+	}
+	var jobs []job
+	for i, p := range pairs {
+		bud := budgetFor(p)
+		base := 50 // ~5 000 transitions with one fault
+		switch {
+		case p.A == p.B:
+			base = 1
+		case p.A&^p.B != 0 && p.B&^p.A != 0:
+			base = 700
+		}
+		if p.Queued {
+			base = base * 7 / 10
+		}
+		switch {
+		case bud == 0 || p.A == p.B:
+			jobs = append(jobs, job{pair: i, budget: bud, cost: base/25 + 1})
+		default:
+			if bud == 2 {
+				base *= 25
 			}
-			if p.Queued {
-				cost[i] = cost[i] * 7 / 10
-			}
-			switch budgetFor(len(p.Shape)) {
-			case 0:
-				cost[i] = cost[i]/25 + 1
-			case 2:
-				cost[i] *= 25
+			for _, k := range []string{"drop", "dup", "lexpire"} {
+				for n := 0; n < 2; n++ {
+					jobs = append(jobs, job{pair: i, first: fmt.Sprintf("%s@%d", k, n), budget: bud, cost: base/6 + base/20 + 1})
+				}
 			}
 		}
-		sort.SliceStable(order, func(a, b int) bool { return cost[order[a]] > cost[order[b]] })
+	}
+	assign := make([]int, len(jobs))
+	{
+		_, nsh := r.Shard()
+		order := make([]int, len(jobs))
+		for i := range jobs {
+			order[i] = i
+		}
+		sort.SliceStable(order, func(a, b int) bool { return jobs[order[a]].cost > jobs[order[b]].cost })
 		load := make([]int, nsh)
 		for _, i := range order {
 			best := 0
@@ -628,43 +666,49 @@ func TestVerifC07Small(t *testing.T) {
 				}
 			}
 			assign[i] = best
-			load[best] += cost[i]
+			load[best] += jobs[i].cost
 		}
 	}
 	r.Bound("max_union", maxUnion)
 	bb := map[string]int{}
-	for u := 2; u <= maxUnion; u++ {
-		bb[fmt.Sprintf("union_%d", u)] = budgetFor(u)
+	for _, p := range pairs {
+		way := "one-way"
+		if p.A&^p.B != 0 && p.B&^p.A != 0 {
+			way = "two-way"
+		}
+		bb[fmt.Sprintf("union_%d_%s", len(p.Shape), way)] = budgetFor(p)
 	}
 	r.Bound("fault_budget_by_union_size", bb)
 	r.Bound("pool_bound_for_tick", b.PoolTick)
 	r.Bound("max_depth_allowed", b.MaxDepth)
 	r.Bound("pairs_total", len(pairs))
+	r.Bound("jobs_total", len(jobs))
 	r.Assume("time passes in steps of conversation validity + 1 s (all live conversations of both nodes expire together); the xorTreeRepair loop is not started (its counter is inert)")
 	r.Assume("honest peers: every in-flight message was produced by the real sender code of the other node; forged messages belong to C06/C15/C19")
 	myShard, _ := r.Shard()
-	for i, pair := range pairs {
-		if assign[i] != myShard {
+	for ji, j := range jobs {
+		if assign[ji] != myShard {
 			continue
 		}
 		if r.Expired() {
 			break
 		}
 		if r.Violations() > 0 {
-			r.NotExhaustive("stopped after the first pair with a violation")
+			r.NotExhaustive("stopped after the first job with a violation")
 			break
 		}
+		pair := pairs[j.pair]
 		st0, tr0 := s.states, s.trans
-		s.b.Budget = budgetFor(len(pair.Shape))
+		s.b.Budget, s.b.FirstFault = j.budget, j.first
 		s.searchPair(pair)
 		key := ""
 		if pair.A != pair.B {
-			key = pair.String()
+			key = pair.String() + " first-fault=" + j.first
 		}
 		r.Eval(key)
-		r.Sample(map[string]any{"pair": pair.String(), "states": s.states - st0, "transitions": s.trans - tr0})
+		r.Sample(map[string]any{"pair": pair.String(), "fault_budget": j.budget, "first_fault_class": j.first, "states": s.states - st0, "transitions": s.trans - tr0})
 		if os.Getenv("VERIF_C07_PAIRSTATS") != "" {
-			fmt.Printf("PAIRSTAT %d %s states=%d transitions=%d\n", i, pair.String(), s.states-st0, s.trans-tr0)
+			fmt.Printf("PAIRSTAT %d %s budget=%d first=%s states=%d transitions=%d\n", j.pair, pair.String(), j.budget, j.first, s.states-st0, s.trans-tr0)
 		}
 	}
 	var ru syscall.Rusage
